@@ -1,1 +1,3 @@
 -- root of the proof library: one module per property (theorems only) + helper lemmas
+import Proofs.C10
+import Proofs.C11
